@@ -473,8 +473,11 @@ def r20_7(ctx: Ctx) -> None:
                       "by key, not by position")
     fc = ix.method("PrimaiteGame.from_config")
     helper = next((f for f in ix.nested_funcs(fc) if f.name == "_set_software_listen_on_ports"), None)
+    if helper is None:  # the same helper as a module-level function of the loader's module
+        helper = next((f for f in ix.all_functions() if f.name == "_set_software_listen_on_ports" and f.path == fc.path
+                       and not isinstance(f.node, ast.Lambda)), None)
     if helper is None:
-        raise AnalysisError("R20.7: _set_software_listen_on_ports not found in from_config")
+        raise AnalysisError("R20.7: _set_software_listen_on_ports not found in from_config or next to it")
     g = CFG(helper.node)
     loops = [n for n in g.nodes if n.kind == "for" and "listen_on_ports" in unparse(n.ast.iter)]
     apps = [n for n in g.nodes if any(call_name(c) in ("append", "add") for c in node_calls(n)) and n.loops]
